@@ -15,7 +15,7 @@ PROPS = {
 PROPS["C17"] = {
   "engine": "sim_persist", "variant": "asan", "level": "fault_enumeration",
   "parts": [{"args": ["--mode", "c17"]}],
-  "budget_quick": 90, "budget_thorough": 1500,
+  "budget_quick": 90, "budget_thorough": 600,
   "exhaustive_thorough": False,
   "rule": "one case = (compiled rule file F produced by the library from a generated rule set, fault): the writer crashes after n bytes (a prefix of F is loaded) for every n when |F| <= 6000 (quick) / 16384 (thorough) and for every header/table byte, every section boundary +-8, every relocation-entry boundary and a seeded interior sample otherwise; or one header / buffer-table / relocation-entry field is corrupted (magic, version, num_buffers, each offset and size at 0, +-1, +-8, +16, next size, 2^31-1, 2^32-1); or yr_rules_save(path) runs onto a simulated disk that fills at byte n and yr_rules_load(path) follows. Oracle: load fails and leaves *rules untouched, or (corruptions only) the loaded rules scan a buffer corpus identically. Non-trivial = every case injects a fault; distinct = distinct (rule file, cut point | field,value).",
   "components": {"real": REAL_LIB, "stub": ["YR_STREAM backing store (simulated disk with durable length)", "fwrite/fclose under yr_rules_save (disk-full)", "allocator policy"]},
@@ -24,7 +24,7 @@ PROPS["C17"] = {
 PROPS["C08"] = {
   "engine": "sim_persist", "variant": "asan", "level": "exploration",
   "parts": [{"args": ["--mode", "c08"]}],
-  "budget_quick": 90, "budget_thorough": 1500,
+  "budget_quick": 90, "budget_thorough": 600,
   "rule": "one run = a generated rule set (RuleLab fragments over 1-3 namespaces, externals of all four types, global/private flags, rule references) taken through a seeded history: compile under heap layout/junk A, scan, save, scan original again, save again, load through a stream whose disk delivers at most c bytes per read, destroy the original, scan the copy; recompile under layout/junk B and compare images; stream write error at item n followed by scans and a re-save of the original; rules-level defines followed by save+load. Non-trivial = all runs (each perturbs heap layout and chunking or injects a write fault); distinct = distinct (rule set, chunk, junk, fault position).",
   "components": {"real": REAL_LIB, "stub": ["YR_STREAM read/write callbacks (chunked simulated disk, write errors)", "allocator addresses, padding and junk fill"]},
   "assumptions": ["images are compared within one process under perturbed heap layouts and junk rather than across processes with different ASLR", "saving a rule set obtained from yr_rules_load* is out of scope (docs/capi.rst says such rules cannot be saved)"],
@@ -32,7 +32,7 @@ PROPS["C08"] = {
 PROPS["C19"] = {
   "engine": "sim_persist", "variant": "asan", "level": "exploration",
   "parts": [{"args": ["--mode", "c19"]}],
-  "budget_quick": 90, "budget_thorough": 1500,
+  "budget_quick": 90, "budget_thorough": 600,
   "rule": "one run = (generated rule set, initial capacity of every compiler arena buffer drawn from {1,2,3,7,8,16,24,64,100,512,4096,65536} or a seeded arbitrary value, realloc forced to always move with the old block poisoned, optional splitting of each source into two add_string calls); oracle: no sanitizer report, scan traces and saved image byte-identical to the default-capacity compilation. Non-trivial = at least one block was relocated; distinct = distinct (rule set, capacity, split).",
   "components": {"real": REAL_LIB, "stub": ["yr_arena_create initial size as seen by compiler.c (link-time seam)", "realloc policy (always moves, junk-fills, old block freed/poisoned)"]},
   "assumptions": ["growth positions are sampled through the capacity choice; with capacity 1 every allocation relocates"],
@@ -41,7 +41,7 @@ PROPS["C19"] = {
 PROPS["C13"] = {
   "engine": "sim_blocks", "variant": "asan", "level": "fault_enumeration",
   "parts": [{}],
-  "budget_quick": 60, "budget_thorough": 1500,
+  "budget_quick": 60, "budget_thorough": 600,
   "exhaustive_quick": False,
   "rule": "one run = (generated rule set incl. entrypoint / uintN / fullword-at-end probes and modules, buffer from {text with planted patterns, exact sizes 0,1,100,4095,4096,4097,8192 with a match ending on the last byte, PE, ELF}, entry point or block partition, fault plan). Entry points: scanner/mem, file, fd (rules and scanner level), single-block iterator, each compared with yr_rules_scan_mem on an exact-size heap copy (ASan red zone behind the last byte); open/fstat/mmap/fstatfs failures must give the documented error, no callback and balanced fd/mapping ledgers. Interrupted iteration: for a partition into b blocks, EVERY non-empty subset of the b+1 logical iterator calls answers not-ready (once, or 2-3 times at one call) when b <= 5, seeded subsets for b = 6..12; optional failed fetch; concatenated trace over the repeated calls must equal the uninterrupted scan of the same partition, every intermediate call returns exactly ERROR_BLOCK_NOT_READY without rule/finished messages, and the number of calls equals 1 + not-ready answers. Separately, not-ready during the re-iteration performed by rule evaluation. Non-trivial = a fault fired or a non-default entry point ran; distinct = distinct (rules, buffer, partition, plan).",
   "components": {"real": REAL_LIB, "stub": ["YR_MEMORY_BLOCK_ITERATOR (harness iterator: partition, not-ready plan, failed fetch)", "open/fstat/fstatfs/mmap/munmap/close error injection and ledgers (real syscalls underneath)"]},
@@ -51,7 +51,7 @@ PROPS["C13"] = {
 PROPS["C11"] = {
   "engine": "sim_protocol", "variant": "asan", "level": "fault_enumeration",
   "parts": [{}],
-  "budget_quick": 60, "budget_thorough": 1500,
+  "budget_quick": 60, "budget_thorough": 600,
   "exhaustive_quick": False,
   "rule": "one run = (generated rule set of 1-10 rules over 1-3 namespaces spread over 1-5 source units that revisit namespaces, each rule ordinary/global/private/global+private, conditions over {true,false,own string planted or not,undefined,not,and,or,references to earlier rules,module calls with known value}, 0-4 imports per unit incl. repeated imports, optional console.log; report flags in {0,MATCHING,NOT_MATCHING,both}; reply plan = CONTINUE everywhere or ABORT/ERROR at message k). For each rule set and flag setting EVERY k of the model trace and both replies are run (ABORT only on rule messages, ERROR on rule and module messages; unspecified positions are not injected). Oracle: executable model of the protocol (Appendix A.1): observed message sequence == model prefix through k, return code == model's. Non-trivial = a reply other than CONTINUE was injected; distinct = distinct (rule set, flags, k, reply).",
   "components": {"real": REAL_LIB, "stub": ["scan callback (consumer behaviour: reply plan)", "model evaluator for the generated condition language (oracle)"]},
@@ -61,7 +61,7 @@ PROPS["C11"] = {
 PROPS["C10"] = {
   "engine": "sim_history", "variant": "small", "level": "exploration",
   "parts": [{"args": ["--mode", "c10"]}],
-  "budget_quick": 75, "budget_thorough": 1500,
+  "budget_quick": 75, "budget_thorough": 600,
   "rule": "one run = one long-lived scanner driven through a generated history of 3-12 scans; each scan = (buffer from {text with plants, PE, ELF, empty, many-matches, fiber-bomb, second text}, entry point mem/file/2-block iterator, report flags, module data, injected outcome from {none, callback ABORT/ERROR at message k, simulated clock jumping past the deadline at clock read j, match-limit warning answered CONTINUE/ABORT (limit lowered to 96 by the build knob), iterator not-ready resumed / abandoned}). Oracle: every scan's trace and return code equal those of a freshly created scanner given the same settings, buffer and fault plan; after every completed scan the public scan context holds no match lists, no notebook and a balanced regex fiber pool; destroying the scanner after the history leaves no allocation behind. Failing histories are shrunk by dropping scans. Non-trivial = all histories (each reuses the scanner); distinct = distinct (rules, history shape).",
   "components": {"real": REAL_LIB, "stub": ["scan callback replies", "clock (simulated; only source of time for the scanner)", "block iterator", "allocator ledger"]},
   "assumptions": ["scanner-level settings (flags, timeout, callback) are re-applied before every scan on both scanners", "YR_MAX_STRING_MATCHES lowered to 96 through the #ifndef-guarded knob in limits.h"],
@@ -69,7 +69,7 @@ PROPS["C10"] = {
 PROPS["C20"] = {
   "engine": "sim_history", "variant": "asan", "level": "exploration",
   "parts": [{"args": ["--mode", "c20"]}],
-  "budget_quick": 60, "budget_thorough": 1500,
+  "budget_quick": 60, "budget_thorough": 600,
   "rule": "one run = a seeded operation history over a compiler, the rule set it produces (and a saved+loaded copy), and up to four scanners: compile-time defines of all four types incl. duplicates and NULL strings; rules-level and scanner-level defines incl. unknown identifiers, wrong types and NULL; scanner creation; scans through each scanner and rules-level scans. Oracle: three-level environment model (compile-time -> rule-set -> per-scanner snapshot at creation) predicting every define's return code and the verdict of ten probe rules that use the variables as ==, arithmetic, boolean, float range, contains/matches, `at`, `in`, `of` quantifier, loop bound and variable-vs-variable; after every define ALL scanners and a rules-level scan are re-checked (isolation). Failing histories are shrunk. Non-trivial = all histories; distinct = distinct operation/value sequence.",
   "components": {"real": REAL_LIB, "stub": ["reference environment model (oracle)"]},
   "assumptions": ["integer vs boolean at scanner level is deliberately unchecked (same object type in the implementation, undocumented)", "NULL string values are not passed at scanner level (unspecified)", "save+load is skipped once a rules-level string define happened (that history aborts in save: C08 finding)"],
@@ -78,7 +78,7 @@ PROPS["C20"] = {
 PROPS["C15"] = {
   "engine": "sim_clock", "variant": "cov", "level": "exploration",
   "parts": [{"args": ["--mode", "time"], "variant": "cov", "max_workers": 9}, {"args": ["--mode", "limits"], "variant": "small"}],
-  "budget_quick": 60, "budget_thorough": 1200,
+  "budget_quick": 60, "budget_thorough": 600,
   "rule": "(a) timeouts under a simulated clock (the scanner's only clock): nine long-running workloads (dense/sparse atoms and a pathological regex on growing data, flat / 4-deep nested / for-of / uintN loops with growing bounds, a module function in a loop with growing bound and with growing data) at 3-4 geometric scales; the clock jumps past the deadline at clock read j for EVERY j of the fault-free run when that has <=160 (quick) / 2000 (thorough) reads, seeded sample above; oracle: TIMEOUT returned at that read with at most one further read and no rule/finished message afterwards, zero timeout => zero reads, same scanner usable afterwards; check density: the largest stretch of work (executed basic blocks, from -fsanitize-coverage=trace-pc) between two clock reads must not grow when the workload grows x4. (b) a string reaches the match cap (lowered to 96 by the build knob): CONTINUE => success, at most one warning per string, other rules' results equal those with the offending rule compiled out, muting ends with the scan; ABORT/ERROR => TOO_MANY_MATCHES. (c) boundary table: loop nesting, strings per rule, include depth, identifier length, integer literal, regex size / split ids, VM stack, regex fibers, match data at 1, L-1, L, L+1, 10L: only the documented error, monotone, enforced far beyond, library usable afterwards. Non-trivial = a clock jump, limit or warning actually fired; distinct = distinct (workload, scale, j) / (case, reply) / (limit, size).",
   "components": {"real": REAL_LIB, "stub": ["clock_gettime (simulated: advances only by script)", "scan callback replies", "work counter = compiler-inserted basic-block callback in scanner.c scan.c exec.c re.c modules.c object.c notebook.c hash.c rules.c libyara.c arena.c and all module sources"]},
   "assumptions": ["time inside libcrypto (hash.*) is not instrumented and not measured", "delay after the deadline is measured in work between clock reads, not in wall time", "boundary semantics at exactly L-1/L/L+1 are not pinned (either outcome accepted) - only the error kind, monotonicity and enforcement far beyond the limit"],
@@ -87,7 +87,7 @@ PROPS["C15"] = {
 PROPS["C09"] = {
   "engine": "sim_threads", "variant": "cov", "level": "exploration",
   "parts": [{}],
-  "budget_quick": 55, "budget_thorough": 1500,
+  "budget_quick": 55, "budget_thorough": 600,
   "rule": "one run = 2-6 (1 in 12 runs: 8-32) real threads under the baton scheduler sharing one compiled rule set (strings, regexes, every module, externals); each thread runs 1-6 scans through its own scanner or the rules-level calls (mem, file, fd, 2-block iterator, mapped file truncated right after mapping => real SIGBUS inside the trycatch) with its own callback plan (ABORT/ERROR at message k), timeout, scanner-level externals and module data; some runs add a thread compiling unrelated (also failing) rules. Yield points: every basic block of scanner.c scan.c exec.c re.c modules.c object.c notebook.c hash.c rules.c libyara.c arena.c and the modules (compiler instrumentation), every allocation/free, callback, iterator call, clock read, mutex lock/unlock, sigaction and file syscall. Scheduling policy drawn per run: random quanta per yield class, PCT priorities with 1-4 change points on synchronisation yields, round robin, or one starved thread. Oracles: every scan == the same scan run alone; shared rule set memory unchanged (hash at 1 in 8 switches and at quiescence); libyara .data/.bss words written by two threads without a common simulated lock (diffed at every context switch); SIGBUS/SIGSEGV dispositions and handler use count restored; allocation/fd/mapping ledgers balanced; no deadlock, step budget. Non-trivial = at least one context switch; distinct = distinct context-switch sequence hash (from-task, to-task, yield kind).",
   "components": {"real": REAL_LIB + ["real pthreads parked/released by the scheduler", "real SIGBUS delivery and yara's signal handler"], "stub": ["thread scheduling (baton)", "pthread_mutex_lock/unlock as seen by yara (simulated blocking)", "per-thread simulated clocks", "allocator ledger", "file syscalls ledger"]},
   "assumptions": ["threads are serialised: two conflicting accesses inside one basic block of each thread cannot be interleaved; such races are visible only through the shared-state invariants", "the schedule is regenerated from (seed, run) on replay and verified through its hash rather than stored decision by decision", "a SIGBUS during rule evaluation (not the scan loop) is outside this check"],
@@ -96,7 +96,7 @@ PROPS["C09"] = {
 PROPS["C18"] = {
   "engine": "sim_cli", "variant": "cov", "level": "exploration",
   "parts": [{}],
-  "budget_quick": 55, "budget_thorough": 1500,
+  "budget_quick": 55, "budget_thorough": 600,
   "rule": "one run = the real `yara` main (and `yarac` for pre-compiled rules) executed in a forked child under the baton scheduler on a generated directory tree (1-200 files, both fewer and more than the 64 queue slots; PE / ELF / text / empty / many-matches contents; nested directories with -r; or a scan-list file; files that cannot be opened) with options drawn from -s -L -X -m -g -e -f -w -c -n -t -i -l, -p N in {1,2,3,4,8,16,32}, externals given to yara or to yarac; directory entries are returned in a seeded order; every basic block of cli/*.c, every pthread/semaphore call under cli/threading.c, thread create/join, printf-family call, allocation and file open is a yield point; policy per run from {random quanta, PCT change points, round robin, one starved thread}. Oracles: multiset of stdout records (rule line + its string lines, contiguous) == union of single-threaded single-file invocations (`-p 1 --scan-list` of one path) with the same options; same for stderr lines; pre-compiled rules give the same output; no deadlock / step budget; exit status != 0 iff an error line was printed. Non-trivial = at least one context switch; distinct = distinct context-switch sequence hash.",
   "components": {"real": ["cli/yara.c main", "cli/yarac.c main", "cli/threading.c", "cli/args.c", "cli/common.c"] + REAL_LIB, "stub": ["pthread_create/join, pthread_mutex_lock/unlock, sem_* beneath cli/threading.c (simulated blocking, baton scheduler)", "opendir/readdir order", "printf/fprintf/putchar/puts sinks", "exit()", "time()", "open() failure for paths named unreadable*"]},
   "assumptions": ["threads are serialised (see C09)", "the schedule is regenerated from (seed, run) on replay", "-a (timeout) and -D (module data dump) are not drawn", "the queue-index lock-set invariant of the design is not implemented; lost/duplicated paths are caught through the output multiset"],
